@@ -66,6 +66,17 @@ __CPROVER_assigns()
 __CPROVER_ensures((__CPROVER_return_value != 0) == (vf_bn_val(*a) == vf_bn_val(*b)))
 ;
 
+/* bn_is_zero keeps its real body (digits == 0) in most jobs; a job that lists it in `replace` gets the
+ * same answer plus a log of WHICH number was tested (ecdsa_sign: the GOST e == 0 test) */
+static inline int
+bn_is_zero(bn_p bn)
+__CPROVER_requires(VF_ECBN_R(bn))
+__CPROVER_assigns(vf_g.iz)
+__CPROVER_ensures(__CPROVER_return_value == ((bn->digits == 0) ? 1 : 0))
+__CPROVER_ensures(vf_n_iz == __CPROVER_old(vf_n_iz) + 1u &&
+    VF_IO_SLOTS4(vf_n_iz, vf_iz_bn, VF_ID(bn)) && VF_IO_SLOTS4(vf_n_iz, vf_iz_r, __CPROVER_return_value))
+;
+
 /* ------------------------------------------------------------------ assignments ---- */
 /* dst = src; dst == src is a no-op; EOVERFLOW iff src does not fit (first lines of the function) */
 static inline int
@@ -142,8 +153,10 @@ static inline int
 bn_mod_mult(bn_p bn, bn_p n, bn_p m, bn_mod_rd_data_p mod_rd_data)
 __CPROVER_requires(VF_ECBN_RW(bn) && VF_ECBN_R(n) && VF_ECBN_R(m) && bn != m)
 __CPROVER_assigns(VF_BN_FRAME(bn))
-__CPROVER_assigns(VF_EC_STATUS_ASSIGNS)
+__CPROVER_assigns(VF_EC_STATUS_ASSIGNS, vf_g.mmul)
 __CPROVER_ensures(VF_EC_STATUS_ENSURES)
+__CPROVER_ensures(vf_n_mmul == __CPROVER_old(vf_n_mmul) + 1u &&
+    VF_IO_SLOTS4(vf_n_mmul, vf_mmul_bn, VF_ID(bn)) && VF_IO_SLOTS4(vf_n_mmul, vf_mmul_nn, VF_ID(n)))
 __CPROVER_ensures(__CPROVER_return_value == 0 ==> (vf_bn_wf(*bn) && VF_LT(vf_bn_val(*bn), vf_bn_val(*m))))
 ;
 static inline int
@@ -194,6 +207,8 @@ __CPROVER_ensures(VF_EC_STATUS_ENSURES)
 __CPROVER_ensures(vf_n_msub == __CPROVER_old(vf_n_msub) + 1u &&
     vf_msub_z0 == ((__CPROVER_old(vf_n_msub) == 0) ? (__CPROVER_return_value == 0 && bn->digits == 0) : __CPROVER_old(vf_msub_z0)) &&
     vf_msub_z1 == ((__CPROVER_old(vf_n_msub) == 1) ? (__CPROVER_return_value == 0 && bn->digits == 0) : __CPROVER_old(vf_msub_z1)))
+__CPROVER_ensures((__CPROVER_old(vf_n_msub) == 0) ? (vf_msub_bn0 == VF_ID(bn) && vf_msub_n0 == VF_ID(n) && vf_msub_m0 == VF_ID(m)) :
+    (vf_msub_bn0 == __CPROVER_old(vf_msub_bn0) && vf_msub_n0 == __CPROVER_old(vf_msub_n0) && vf_msub_m0 == __CPROVER_old(vf_msub_m0)))
 __CPROVER_ensures(__CPROVER_return_value == 0 ==> (vf_bn_wf(*bn) && VF_LT(vf_bn_val(*bn), vf_bn_val(*m))))
 ;
 VF_ECBN_MODOP1(bn_mod_sqrt)
